@@ -12,7 +12,7 @@ from ..engine import Finding, with_timeout, Timeout
 
 ID = 'C10'
 TITLE = 'drange enumerates exactly t0, t0+bump, ... up to t1 for every kind of bump'
-LEAN_FILES = ['Basic', 'Civil', 'DRange', 'DRangeDriver', 'DRangeLemmas', 'CivilLemmas', 'CivilGreg', 'DRangeMonth', 'DRangeBump', 'C10',
+LEAN_FILES = ['Basic', 'Civil', 'DRange', 'DRangeDriver', 'DRangeLemmas', 'CivilLemmas', 'CivilGreg', 'DRangeMonth', 'DRangeBump', 'DRangeBday', 'C10',
               # the step is tied to the C09 model of dt_bump and the Gregorian model of C04/C09:
               'Greg', 'GenTypes', 'Bump', 'PygGen', 'Sweep', 'GregLemmas', 'GregPeriod', 'BumpLemmas', 'MonthLemmas', 'TokenLemmas', 'C09']
 GENERATED = ['PygGen.Ym', 'PygGen.BDay', 'PygGen.Tables']
@@ -83,6 +83,19 @@ def neg_str(s):
     return out
 
 
+def respell(rng, n, u):
+    """'<n><u>' now and then in upper case, with a '+' sign, with leading zeros (the period regex admits all three; review t3 §C10 2.5)"""
+    r = rng.random()
+    s = '%d%s' % (n, u)
+    if r < 0.1:
+        s = s.upper()
+    elif r < 0.17 and n > 0:
+        s = '+' + s
+    elif r < 0.24:
+        s = '%s%03d%s' % ('-' if n < 0 else '', abs(n), u)
+    return s
+
+
 def rand_spec(rng):
     """one request: dict(kind, t0, t1, bump) with datetimes and the python bump object"""
     r = rng.random()
@@ -126,13 +139,13 @@ def rand_spec(rng):
         months = dict(m=1, q=3, y=12)[u] * k
         steps = rng.choice([0, 1, 2, 3, rng.randrange(1, 40)])
         t1 = t0 + sgn * TD(days=int(steps * months * 30.44) + rng.choice([0, 1, 15, 31]))
-        kind, bump = 'single-' + u, '%d%s' % (sgn * k, u)
+        kind, bump = 'single-' + u, respell(rng, sgn * k, u)
     elif r < 0.84:    # business days, whole days apart
         k = rng.choice([1, 1, 1, 2, 3, 5, 7])
         t0 = rand_start(rng, rng.random() < 0.8)
         span = rng.choice([0, 0, 1, 2, 3, 6, 7, 13, rng.randrange(1, 60), rng.randrange(60, 1100)])     # 0: t0 == t1, also on a weekend day
         t1 = t0 + sgn * span * DAY
-        kind, bump = 'b', '%db' % (sgn * k)
+        kind, bump = 'b', respell(rng, sgn * k, 'b')
     elif r < 0.87:    # mixed-sign compound period strings: the step may turn round later on (F15), any units
         if rng.random() < 0.25:
             s = rng.choice(MIXED)
@@ -367,6 +380,17 @@ def _laws(rng, tier, ctx):
             want = want[::abs(k)]
             if res != want:
                 yield bad("'%s' must list every %d-th weekday between the endpoints%s" % (bump, abs(k), ' in reverse' if k < 0 else ''))
+                continue
+            # ... and, from a weekday t0 (endpoints whole days apart), the first sentence of the statement holds for 'kb' as well: the list is
+            # t0, dt_bump(t0,'kb'), ... while inside (theorem kb_eq_iter_dtbump; from a weekend t0 the grids differ: kb_weekend_grids_differ)
+            if t0.weekday() < 5 and (t1 - t0) % DAY == TD(0):
+                count += 1
+                it, t = [], t0
+                while (t <= t1 if up else t >= t1) and len(it) <= len(res) + 1:
+                    it.append(t)
+                    t = dt_bump(t, bump)
+                if res != it:
+                    yield bad("'%s' from the weekday t0 is not t0, dt_bump(t0), dt_bump(dt_bump(t0)), ... while inside [t0, t1]" % bump)
             continue
         # all other kinds: start at t0, repeatedly apply the bump while inside, stop only when the next one is outside
         if bump is None:
@@ -387,6 +411,12 @@ def _laws(rng, tier, ctx):
         # integer n, timedelta(n) and 'nd' give identical lists
         if kind in ('int', 'single-d') or (kind == 'td' and bump % DAY == TD(0)):
             n = bump if isinstance(bump, int) else (bump // DAY if isinstance(bump, TD) else int(bump[:-1]))
+            if (t1 - t0) % DAY != TD(0) and kind != 'int':
+                # timedelta(n) and 'nd' agree for ANY endpoints (theorem td_str_agree_any; intraday endpoints are inside the quantifier for these)
+                b, c = _call(lambda: drange(t0, t1, n * DAY)), _call(lambda: drange(t0, t1, '%dd' % n))
+                count += 1
+                if b != c:
+                    yield bad("timedelta / 'nd' spellings of the same bump disagree", [line_of(dict(spec, bump=n * DAY)), line_of(dict(spec, bump='%dd' % n))])
             if (t1 - t0) % DAY == TD(0):
                 a, b, c = (_call(lambda: drange(t0, t1, n)), _call(lambda: drange(t0, t1, n * DAY)), _call(lambda: drange(t0, t1, '%dd' % n)))
                 count += 1
